@@ -576,6 +576,9 @@ func (i *indexedTableRefIter) Next(rec record) (bool, error) {
 		}
 
 		if bytes.Compare(ref.Value, i.oid) == 0 || bytes.Compare(ref.TargetValue, i.oid) == 0 {
+			// Blocks store update indices relative to the
+			// minimum of the table.
+			ref.UpdateIndex += i.r.header.MinUpdateIndex
 			return true, nil
 		}
 	}
